@@ -55,6 +55,9 @@ PAIRS = [
     ('DlChannelAnsCreator', 'set_channel_frequency_ack', 'DlChannelAnsPayload', 'channel_freq_ack', 'b', 0, 0, 1),
     ('DlChannelAnsCreator', 'set_uplink_frequency_exists_ack', 'DlChannelAnsPayload', 'uplink_freq_ack', 'b', 0, 1, 1),
     ('DeviceTimeAnsCreator', 'set_seconds', 'DeviceTimeAnsPayload', 'seconds', 'u', 0, 0, 32),
+    # remote multicast setup (TS005): status byte of McGroupStatusAns = RFU[7] NbTotalGroups[6:4] AnsGroupMask[3:0]; McGroupStatusReq = RFU[7:4] ReqGroupMask[3:0]
+    ('McGroupStatusAnsCreator', 'nb_total_groups', 'McGroupStatusAnsPayload', 'nb_total_groups', 'u', 0, 4, 3),
+    ('McGroupStatusReqCreator', 'req_group_mask', 'McGroupStatusReqPayload', 'req_group_mask', 'u', 0, 0, 4),
 ]
 # (module, payload type) -> (CID, payload length in bytes; None = variable length)
 CID_TABLE = {
@@ -74,7 +77,7 @@ CID_TABLE = {
 }
 NOT_JUDGED = {'DeviceTimeAnsCreator::set_nano_seconds': 'lossy by design (nanoseconds quantised to 1/256 s)'}
 # RFU bits of the byte that a setter may also clear (written as constant 0): (payload byte, bit)
-RFU = {('DevStatusAnsCreator', 'set_margin'): {(1, 6), (1, 7)}}
+RFU = {('DevStatusAnsCreator', 'set_margin'): {(1, 6), (1, 7)}, ('McGroupStatusAnsCreator', 'nb_total_groups'): {(0, 7)}}
 # the LoRaWAN coding of MaxEIRP (TXParamSetupReq): the builder takes the coded index, the parser returns dBm
 EIRP_DBM = [8, 10, 12, 13, 14, 16, 18, 20, 21, 24, 26, 27, 29, 30, 33, 36]
 
@@ -100,7 +103,10 @@ class Composer:
 
     def run_setter(self, creator, setter, arg=None):
         an = absint_interp.new_analyzer(self.prog, max_depth=7)
-        sb = find_body(self.prog, '%s>::%s' % (creator, setter))
+        try:
+            sb = find_body(self.prog, '%s>::%s' % (creator, setter))
+        except CheckError:
+            sb = find_body(self.prog, '::%s::%s' % (creator, setter))     # inherent impl in the type's own module
 
         def setup(an_, fr, st):
             if arg is not None:
@@ -284,6 +290,8 @@ def run(tier):
     # ------------------------------------------------------------------ framing
     n_len = 0
     for creator in sorted({p[0] for p in PAIRS}):
+        if creator.startswith('McGroupStatus'):
+            continue            # variable-length / hand-written framing: CID and length are judged by the command table below
         payload = creator[:-7] + 'Payload'
         lb = find_body(prog, '::%s::len' % creator)
         mb = find_body(prog, '::%s::max_len' % payload)
